@@ -42,6 +42,9 @@ def parse_opts(s):
             opts['opaque_macros'] += w[len('opaque='):].split(',')
         elif re.match(r'^R\d+$', w):
             opts['rules'].append(w)
+        elif w.startswith('R28='):
+            opts['rules'].append('R28')
+            opts['r28_sigs'] = w[len('R28='):].split(',')
         elif re.match(r'^R20=\w+$', w):
             opts['rules'].append('R20')
             opts['r20_type'] = w.split('=')[1]
